@@ -40,7 +40,7 @@ def cases(ctx):
         yield {"kind": "stream", "columns": 16, "notes": []}
         for name, ch in c07.corpus_charts():
             yield {"kind": "text", "name": name, "text": ch.notes}
-    n = ctx.split(2500 if ctx.tier == "quick" else 16 * 40000)
+    n = ctx.split(2500 if ctx.tier == "quick" else 16 * 25000)
     for i in range(n):
         if i % 4 == 3:
             cells = G.gen_cells(rng)
